@@ -38,7 +38,7 @@ from __future__ import annotations
 
 import ast
 
-from ..astutil import callee_name, calls, handler_types, is_name, text
+from ..astutil import call_recv, callee_name, calls, handler_types, is_name, text
 from ..core import Result
 from ..engines import hnd
 from ..engines.exc import Exc
@@ -127,7 +127,7 @@ def _cond_cycle_nonneg(repo: Repo) -> str | None:
         if not vals:
             return f"cycle returns `{text(r)}` which is not a local bound in the function"
         for v in vals:
-            ok = isinstance(v, ast.Call) and callee_name(v) == "setdefault" and isinstance(v.func, ast.Attribute) and is_name(v.func.value, ns) and len(v.args) == 2 and isinstance(v.args[1], ast.Constant) and isinstance(v.args[1].value, int) and v.args[1].value >= 0
+            ok = isinstance(v, ast.Call) and callee_name(v) == "setdefault" and isinstance(v.func, ast.Attribute) and is_name(call_recv(v), ns) and len(v.args) == 2 and isinstance(v.args[1], ast.Constant) and isinstance(v.args[1].value, int) and v.args[1].value >= 0
             if not ok:
                 return f"cycle returns `{text(v)[:60]}`, not `{ns}.setdefault(key, <const >= 0>)`"
     for n in walk_no_nested(cy.node):
@@ -149,7 +149,7 @@ def _cond_cycle_nonneg(repo: Repo) -> str | None:
                         return f"cycle stores `{text(v)[:60]}` — not `<e> % ({length} or <positive const>)`, so a negative index could be returned later"
     for f in repo.all_functions():
         for c in calls(f.node):
-            if callee_name(c) == "cycle" and isinstance(c.func, ast.Attribute) and text(c.func.value) in ("context", "self", "ctx"):
+            if callee_name(c) == "cycle" and isinstance(c.func, ast.Attribute) and text(call_recv(c)) in ("context", "self", "ctx"):
                 b = c.args[1] if len(c.args) > 1 else next((k.value for k in c.keywords if k.arg == length), None)
                 if not (isinstance(b, ast.Call) and is_name(b.func, "len")):
                     return f"{f.qual} calls cycle() with length `{text(b) if b is not None else '?'}` which is not a len(...)"
@@ -274,6 +274,30 @@ REVIEWED = {
 }
 
 
+_KEEP_NAMES = {"self", "cls", "isinstance", "str", "len", "int", "float", "itertools", "None", "True", "False"}
+
+
+def _loose_arg(arg: str) -> str:
+    """the argument text of a site with local variable names blanked: a local rename (`start_` ->
+    `first`) does not turn a reviewed site into a new one"""
+    try:
+        tree = ast.parse(f"({arg})", mode="eval")
+    except SyntaxError:
+        return arg
+    for n in ast.walk(tree):
+        if isinstance(n, ast.Name) and n.id not in _KEEP_NAMES:
+            n.id = "_"
+    return text(tree.body)
+
+
+def _loose_key(func: str, prim: str, arg: str, exc: str) -> str:
+    """reviewed rows also match the same primitive/argument/exception anywhere in the same class
+    (or module, for module-level functions): extracting the statement into a private helper of
+    that class does not turn a reviewed site into a new one"""
+    owner = func.rsplit(".", 1)[0]
+    return f"{owner}|{prim}:{_loose_arg(arg)}|{exc}"
+
+
 def _is_construct_factory(x: Exc):
     impls = {fi.func.qual for fi, _ in x.filter_entries}
 
@@ -354,7 +378,9 @@ def run(repo: Repo) -> Result:
                 res.add("C02-PARSE", fs.qual, f"handler:{','.join(handler_types(h))}", "from_string handles a non-Liquid class before the catch-all without converting it", fs.file, h.lineno)
     if not ok:
         res.add("C02-PARSE", fs.qual, "catch-all", "from_string must wrap self._parse(source) in try/except Exception that raises LiquidError: any unexpected parser exception would reach the caller", fs.file, fs.line)
-    ld = repo.own_method("liquid.loader.BaseLoader", "load")
+    from ..normalize import nfunc
+
+    ld = nfunc(repo, repo.own_method("liquid.loader.BaseLoader", "load"))  # private helpers inlined
     res.ob(ld.qual)
     if not any(callee_name(c) == "from_string" for c in calls(ld.node)):
         res.add("C02-PARSE", ld.qual, "via-from_string", "BaseLoader.load must parse through env.from_string (the conversion funnel)", ld.file, ld.line)
@@ -377,6 +403,13 @@ def run(repo: Repo) -> Result:
         if fi.func.qual not in reached_filters:
             res.add("C02-ESCAPE", fi.func.qual, "not-reached", f"filter {fi.name} ({fi.func.qual}) was not reached from BoundTemplate.render: the analysis would say nothing about it", fi.func.file, fi.func.line)
     used_reviewed = set()
+    loose_rows: dict[str, list] = {}
+    for k in REVIEWED:
+        base = k.split("@")[0]
+        fq_, rest = base.split("|", 1)
+        prim_arg, exc_ = rest.rsplit("|", 1)
+        prim_, arg_ = prim_arg.split(":", 1)
+        loose_rows.setdefault(_loose_key(fq_, prim_, arg_, exc_), []).append(k)
     cond_cache: dict = {}
     n_pairs = 0
     for rk in x.root_keys:
@@ -387,6 +420,12 @@ def run(repo: Repo) -> Result:
                 n_pairs += 1
                 row = REVIEWED.get(f"{site.key}@{construct}") or REVIEWED.get(site.key)
                 rowkey = f"{site.key}@{construct}" if f"{site.key}@{construct}" in REVIEWED else site.key
+                if row is None:
+                    lk = _loose_key(site.func, site.prim, site.arg, site.exc)
+                    cands = [k for k in loose_rows.get(lk, []) if "@" not in k or k.endswith("@" + construct)]
+                    if len(cands) >= 1:
+                        rowkey = cands[0]
+                        row = REVIEWED[rowkey]
                 if row is not None:
                     reason, cond = row
                     used_reviewed.add(rowkey)
